@@ -1024,7 +1024,7 @@ theorem table_compat (t : List (Nat × List Nat)) (h : t.all rowCompat = true) :
       simp only [rowCompat, Bool.and_eq_true, Bool.not_eq_true', List.all_eq_true,
         List.isEmpty_eq_false_iff] at this
       obtain ⟨⟨h1, h2⟩, h3⟩ := this
-      exact ⟨fun hc => by rw [h1] at hc; cases hc, fun _ => ⟨h2, h3⟩⟩)
+      exact ⟨fun hc => (by rw [h1] at hc; cases hc), fun _ => ⟨h2, h3⟩⟩)
   exact ⟨fun c hc => (key c).1 hc, fun c hc => (key c).2 hc⟩
 
 theorem table_compat_lower : WsCompat Lt := table_compat _ lowerCompat_rows
